@@ -39,7 +39,60 @@ def parseOp (line : String) : Option Op :=
     pure ⟨ty, input, orc, wf⟩
   | _ => none
 
+structure PairOp where
+  ty : Nat
+  a : Bytes
+  b : Bytes
+  orc : Oracle
+
+def parsePair (line : String) : Option PairOp :=
+  match splitWs line with
+  | "pair" :: name :: ha :: hb :: rest => do
+    let ty ← typeId name
+    let a ← hexBytes ha
+    let b ← hexBytes hb
+    let orc ← match rest with
+      | [] => some []
+      | [o] => if o.startsWith "o:" then parseOracle (o.drop 2).toString else none
+      | _ => none
+    pure ⟨ty, a, b, orc⟩
+  | _ => none
+
+def showRes : Option (Option Bytes) → String
+  | some (some out) => "ok:" ++ showBytes out
+  | some none => "err"
+  | none => "?"
+
+def modelPair (p : PairOp) : String :=
+  let ra := unmarshal p.orc p.ty p.a
+  let rb := unmarshal p.orc p.ty p.b
+  if ra.isNone || rb.isNone then "SKIP"
+  else "A=" ++ showRes ra ++ " B=" ++ showRes rb ++ " A2=" ++ showRes ra
+
+/-- `ok:<hex>` | `err` -/
+def parseRes (s : String) : Option (Option Bytes) :=
+  if s = "err" then some none
+  else if s.startsWith "ok:" then (hexBytes (s.drop 3).toString).map some
+  else none
+
+def monitorPair (p : PairOp) (obs : String) : String :=
+  match splitWs obs with
+  | [ta, tb, ta2] =>
+    if !(ta.startsWith "A=" && tb.startsWith "B=" && ta2.startsWith "A2=") then "FAIL decoder-not-total " ++ ta else
+    match parseRes (ta.drop 2).toString, parseRes (tb.drop 2).toString, parseRes (ta2.drop 3).toString with
+    | some a, some b, some a2 =>
+      if !propHoldsPair a b a2 then "FAIL decoded-value-changed-by-a-later-decode"
+      else if !specHoldsPair p.orc p.ty p.a p.b a b then "FAIL accepted-value-is-not-the-canonical-form-of-the-input"
+      else "ok"
+    | _, _, _ => "FAIL decoder-not-total " ++ ta
+  | t :: _ => "FAIL decoder-not-total " ++ t
+  | [] => "FAIL decoder-not-total"
+
 def model (line : String) : String :=
+  if line.startsWith "pair " then
+    (match parsePair line with
+     | some p => modelPair p
+     | none => "bad-op") else
   match parseOp line with
   | some op =>
     match unmarshal op.orc op.ty op.input with
@@ -57,6 +110,10 @@ def parseObs (obs : String) : Obs :=
   | _ => .other obs
 
 def monitor (opLine obs : String) : String :=
+  if opLine.startsWith "pair " then
+    (match parsePair opLine with
+     | some p => monitorPair p obs
+     | none => "FAIL bad-op") else
   match parseOp opLine with
   | some op =>
     let o := parseObs obs
